@@ -354,3 +354,17 @@ def pool_expiry_family(tier="quick"):
         s += [fin(arrive + 1), {"op": "commit"}]
         out.append(s)
     return out
+
+
+def d14_family():
+    """known finding D14, exhibited on every run of C06: an inscription call that is invalid (inscription length 1: gas limit below
+    the intrinsic cost) consumes no nonce, so the same call submitted again gets the same transaction hash."""
+    ops = [{"op": "sstore", "s": 1, "v": 2}]
+    call = lambda idx, gas, insc: {"op": "tx", "via": "call", "from": "s1", "to": "c_s1_0", "ckind": "NULL", "ops": ops, "lc": {"fn": "none"}, "insc": insc,
+                                  "idx": idx, "hash": "h2", "ts": 102, "gas": gas, "txid": "x%d" % (20 + idx), "enc": "hex"}
+    return [[{"op": "init", "hash": "h100", "ts": 100, "height": 0},
+             {"op": "tx", "via": "deploy", "from": "s1", "to": "NULL", "ckind": "cell", "ops": [], "lc": {"fn": "none"}, "insc": "d14a", "idx": 0,
+              "hash": "h1", "ts": 101, "gas": "ample", "txid": "x1", "enc": "hex"},
+             {"op": "finalise", "ts": 101, "hash": "h1", "count": 1},
+             call(0, "tiny", "d14b"), call(1, "ample", "d14c"),
+             {"op": "finalise", "ts": 102, "hash": "h2", "count": 2}]]
